@@ -286,6 +286,8 @@ func readReq(s net.Conn, x *xchg, want types.Specifier, req proto4.Object) bool 
 
 // readRenterSig reads the renter's second message (a bare signature response).
 func readRenterSig(s net.Conn, x *xchg, o proto4.Object) bool {
+	// the renter answers within microseconds on loopback or not at all
+	s.SetReadDeadline(time.Now().Add(400 * time.Millisecond))
 	if err := proto4.ReadResponse(s, o); err != nil {
 		x.note("renter did not send its signature: %v", err)
 		return false
@@ -295,10 +297,21 @@ func readRenterSig(s net.Conn, x *xchg, o proto4.Object) bool {
 
 // honest helpers -----------------------------------------------------------
 
+var (
+	subtreeMu    sync.Mutex
+	subtreeCache = map[*sector][]types.Hash256{}
+)
+
 func honestRead(sec *sector, offset, length uint64) (data []byte, proof []types.Hash256) {
 	start, end := offset/leafSize, (offset+length+leafSize-1)/leafSize
 	ss, se := proto4.SectorSubtreeRange(start, end)
-	cache := proto4.CachedSectorSubtrees(sec)
+	subtreeMu.Lock()
+	cache, ok := subtreeCache[sec]
+	if !ok {
+		cache = proto4.CachedSectorSubtrees(sec)
+		subtreeCache[sec] = cache
+	}
+	subtreeMu.Unlock()
 	proof = proto4.BuildSectorProof(sec[ss*leafSize:se*leafSize], start, end, cache)
 	return append([]byte(nil), sec[offset:offset+length]...), proof
 }
